@@ -343,8 +343,8 @@ def _prep_index(self, indx):
     for k,item in enumerate(expanded):
         inloc = inlocs[k]
 
-        # None consumes to input axis
-        if item is None:
+        # None and Ellipsis consume no particular input axis
+        if item is None or item is Ellipsis:
             pre_index += [item]
             continue
 
